@@ -30,6 +30,15 @@ CHECKS = {
             "that was sent. Search, not proof: larger streams are sampled.",
             "Trusts the recording layers of the harness and Python's struct module as the length reference.",
             "5/C05"),
+    "C10": ("exploration",
+            "Hypothesis-generated attribute objects and peer payloads; round-trip, metamorphic re-serialisation and a pinned "
+            "attribute->protobuf field table as independent oracle",
+            "Generated message contents of every kind over optional-field subsets and nested context info are converted to "
+            "bytes and back (every set field must return), peer-built protobuf payloads are re-serialised (every modelled "
+            "field path keeps its value), the produced bytes are read with a field table pinned in the harness (mirrored "
+            "slips fail), and the message entities' tree conversion is round-tripped.",
+            "Trusts the protobuf runtime and the pinned field/kind table; unset == proto default.",
+            "5/C10"),
     "C13": ("fault_enumeration",
             "model-based generated operation scripts over the real SQLite store (dict model in lock-step) + crash-point "
             "enumeration of every mutating operation with a previous-or-new oracle",
